@@ -150,6 +150,8 @@ def run(ctx):
             return _replay.run_native(script, {'obligation': ob.name}, timeout=300)
         return fn
     ctx.replayers['*'] = _replayer('nego.py')
+    ctx.native_crosschecks.append(('nego.py', {'obligation': 'asceprovider.AssociationAcceptor.accept#'}, 'accept over a small exhaustive universe'))
+    ctx.native_crosschecks.append(('nego.py', {'obligation': 'asceprovider.AssociationAcceptor._loop#'}, 'dispatch'))
     ctx.assumptions += [
         'the request lists its items in standard order: application context, presentation contexts, user '
         'information whose first sub-item is Maximum Length (accept() indexes them positionally)',
